@@ -178,7 +178,7 @@ def api_text(case):
         dlang.set_global_language_to('en')
 
 
-MODEL_FORMATS = ('auto', 'auto_extended', 'conll', 'ptb', 'deriv', 'ja', 'prolog', 'json', 'html')
+MODEL_FORMATS = ('auto', 'auto_extended', 'conll', 'ptb', 'deriv', 'ja', 'prolog', 'json', 'html', 'xml', 'jigg_xml')
 
 
 def model_line(case):
@@ -187,7 +187,7 @@ def model_line(case):
     print_) produce the text"""
     from wire import enc_str
     o, lang = case['opts'], case['lang']
-    parts = ['cli', lang, 'ship_' + lang, 'ship_' + lang, (case['fmt'] if case['fmt'] != 'prolog' else 'prolog_' + lang),
+    parts = ['cli', lang, 'ship_' + lang, 'ship_' + lang, (case['fmt'] if case['fmt'] not in ('prolog', 'jigg_xml') else case['fmt'] + '_' + lang),
              '1' if case['piped'] else '0',
              enc_str('|'.join(str(c) for c in case['roots'])), str(o['penalty']), str(o['pruning']), str(o['nbest']), str(o['max_step']),
              str(o['max_length']), str(o['procs']), str(len(case['lines']))] + [enc_str(l) for l in case['lines']]
